@@ -525,11 +525,13 @@ class CooperativeTask:
         try:
             result = next(self._iterator)
         except StopIteration:
-            self._completeWith(TaskDone(), self._iterator)
+            if self._completionState is None:
+                self._completeWith(TaskDone(), self._iterator)
         except BaseException:
-            self._completeWith(TaskFailed(), Failure())
+            if self._completionState is None:
+                self._completeWith(TaskFailed(), Failure())
         else:
-            if isinstance(result, Deferred):
+            if isinstance(result, Deferred) and self._completionState is None:
                 self.pause()
 
                 def failLater(failure: Failure) -> None:
